@@ -178,3 +178,281 @@ Proof.
           rewrite Hl. unfold down. apply down_again. intros Hh. rewrite Ea. apply has_newline_suffix, Hh. }
         rewrite Hdown2, Eemit. cbn [fst snd]. rewrite Hlead_elem. reflexivity.
 Qed.
+
+(* ---------------------------------------------------------------- Entry::wrap_and_sort on a token entry *)
+Definition tkind (k : kind) : bool := match k with KEY | COLON | INDENT => true | _ => ckind k end.
+Definition is_tok_elem (c : tree) : bool := match c with Tok k _ => tkind k | Node _ _ => false end.
+(* an ENTRY node all of whose children are tokens: KEY, COLON, WHITESPACE, VALUE, NEWLINE, INDENT,
+   COMMENT in any arrangement (every entry of a document read without errors is like that) *)
+Definition token_entry (e : tree) : bool :=
+  match e with Node ENTRY cs => forallb is_tok_elem cs | _ => false end.
+
+Definition built_of (cs : list tree) : list tree :=
+  flat_map (fun c => match c with Tok KEY s => [Tok KEY s] | Tok COLON _ => [Tok COLON [58%N]] | _ => [] end) cs.
+Fixpoint ind_after (ind : indentation) (cs : list tree) : indentation :=
+  match cs with
+  | [] => ind
+  | Tok KEY s :: r => ind_after (match ind with FieldNameLength => Spaces (utf8_size s) | _ => ind end) r
+  | _ :: r => ind_after ind r
+  end.
+Definition toks_of (cs : list tree) : list token :=
+  flat_map (fun c => match c with Tok k s => [(k, s)] | Node _ _ => [] end) cs.
+
+Lemma ews_scan_tokens cs : forall ind b c, forallb is_tok_elem cs = true ->
+  ews_scan cs ind b c = Ok (ind_after ind cs, b ++ built_of cs, c ++ filter cfilt cs).
+Proof.
+  induction cs as [|x r IH]; intros ind b c H.
+  - cbn [ews_scan ind_after built_of flat_map filter]. rewrite !app_nil_r. reflexivity.
+  - cbn [forallb] in H. apply andb_true_iff in H. destruct H as [Hx Hr]. destruct x as [k s|k cs']; [|discriminate].
+    destruct k; try discriminate; cbn [ews_scan ekind ind_after built_of flat_map filter cfilt ckind app];
+      rewrite (IH _ _ _ Hr); rewrite <- ?app_assoc; reflexivity.
+Qed.
+
+Lemma elems_toks_of cs : forallb is_tok_elem cs = true -> elems (toks_of cs) = cs.
+Proof.
+  induction cs as [|x r IH]; [reflexivity|]. cbn [forallb]. intros H. apply andb_true_iff in H. destruct H as [Hx Hr].
+  destruct x as [k s|k cs']; [|discriminate]. cbn [toks_of flat_map app elems map tok_elem fst snd]. f_equal. apply IH, Hr.
+Qed.
+
+Lemma filter_tok_elems cs : forallb is_tok_elem cs = true -> forallb is_tok_elem (filter cfilt cs) = true.
+Proof.
+  induction cs as [|x r IH]; [reflexivity|]. cbn [forallb filter]. intros H. apply andb_true_iff in H. destruct H as [Hx Hr].
+  destruct (cfilt x); [cbn [forallb]; rewrite Hx, (IH Hr); reflexivity|apply IH, Hr].
+Qed.
+
+Lemma ctok_content cs : forallb is_tok_elem cs = true -> forallb is_ctok (toks_of (filter cfilt cs)) = true.
+Proof.
+  induction cs as [|x r IH]; [reflexivity|]. cbn [forallb filter]. intros H. apply andb_true_iff in H. destruct H as [Hx Hr].
+  destruct x as [k s|k cs']; [|discriminate]. unfold cfilt at 1. cbn [ekind]. destruct (ckind k) eqn:E; [|apply IH, Hr].
+  cbn [toks_of flat_map app forallb]. unfold is_ctok at 1. cbn [fst]. rewrite E. apply IH, Hr.
+Qed.
+
+Lemma forallb_stripT (p : token -> bool) T : forallb p T = true -> forallb p (stripT T) = true.
+Proof.
+  intros H. unfold stripT. rewrite forallb_forall in *. intros x Hx. apply in_rev in Hx.
+  destruct (drop_while_suffix is_nl_or_ws_tok (rev T)) as (a & _ & E). apply H. apply in_rev. rewrite E. apply in_or_app. right. exact Hx.
+Qed.
+
+(* the indentation width Entry::wrap_and_sort ends up with, the tokens of the value, the key length *)
+Definition entry_n (ind : indentation) (cs : list tree) : N :=
+  match ind_after ind cs with Spaces i => i | FieldNameLength => 1%N end.
+Definition entry_T (cs : list tree) : list token := stripT (toks_of (filter cfilt cs)).
+Definition entry_kl (cs : list tree) : N := match entry_key (Node ENTRY cs) with Some k => utf8_size k | None => 0%N end.
+(* ... and the entry it returns *)
+Definition entry_out (ind : indentation) (iel : bool) (mll : option N) (cs : list tree) : tree :=
+  Node ENTRY (built_of cs ++ rebuild_value fixed (entry_T cs) (entry_kl cs) (entry_n ind cs) iel mll).
+
+Theorem entry_ws_tokens ind iel mll cs : forallb is_tok_elem cs = true -> (entry_n ind cs =? 0)%N = false ->
+  entry_ws fixed ind iel mll None (Node ENTRY cs) = Ok (entry_out ind iel mll cs).
+Proof.
+  intros H Hn. unfold entry_ws. cbn [children]. rewrite (ews_scan_tokens cs ind [] [] H). cbn [bind app].
+  fold (entry_n ind cs). rewrite Hn. cbn [entry_tokens].
+  rewrite <- (elems_toks_of (filter cfilt cs) (filter_tok_elems cs H)), strip_trailing_elems. fold (entry_T cs).
+  unfold elems. rewrite res_map_into_token. cbn [bind]. reflexivity.
+Qed.
+
+(* ---- the shape of what rebuild_value emits ---- *)
+Definition out_elem (n : N) (c : tree) : bool :=
+  match c with
+  | Tok INDENT s => str_eqb s (spaces n)
+  | Tok k _ => ckind k
+  | Node _ _ => false
+  end.
+
+Lemma out_elem_tok n t : is_ctok t = true -> out_elem n (tok_elem t) = true.
+Proof. destruct t as [k s]. unfold is_ctok. cbn [fst tok_elem snd out_elem]. destruct k; try discriminate; intros _; reflexivity. Qed.
+
+Lemma emit_out n T : forall lwn, forallb is_ctok T = true -> forallb (out_elem n) (fst (emit_indented n lwn T)) = true.
+Proof.
+  induction T as [|t r IH]; intros lwn H; [reflexivity|]. cbn [forallb] in H. apply andb_true_iff in H. destruct H as [H1 H2].
+  cbn [emit_indented]. specialize (IH (is_nl_tok t) H2). destruct (emit_indented n (is_nl_tok t) r) as [e l]. cbn [fst] in *.
+  rewrite forallb_app. cbn [forallb]. rewrite (out_elem_tok n t H1), IH, andb_true_r.
+  destruct lwn; [cbn [forallb out_elem]; rewrite str_eqb_refl; reflexivity|reflexivity].
+Qed.
+
+Lemma rebuild_out T kl n iel mll : forallb is_ctok T = true -> forallb (out_elem n) (rebuild_value fixed T kl n iel mll) = true.
+Proof.
+  intros H. unfold rebuild_value.
+  destruct ((match mll with Some m => (first_line_len T kl <=? m)%N | None => false end) && negb (has_newline T)).
+  - rewrite forallb_app. cbn [forallb out_elem ckind]. rewrite andb_true_r. clear -H. induction T as [|t r IH]; [reflexivity|].
+    cbn [forallb map] in *. apply andb_true_iff in H. destruct H as [H1 H2]. rewrite (out_elem_tok n t H1), (IH H2). reflexivity.
+  - assert (H' : forallb is_ctok (drop_while is_nl_or_ws_tok T) = true).
+    { destruct (drop_while_suffix is_nl_or_ws_tok T) as (a & _ & E). rewrite E, forallb_app in H. apply andb_true_iff in H. apply H. }
+    set (down := _ || _). pose proof (emit_out n (drop_while is_nl_or_ws_tok T) down H') as He.
+    destruct (emit_indented n down (drop_while is_nl_or_ws_tok T)) as [e l]. cbn [fst] in He.
+    rewrite !forallb_app, He. destruct down, l; reflexivity.
+Qed.
+
+Lemma out_is_tok n cs : forallb (out_elem n) cs = true -> forallb is_tok_elem cs = true.
+Proof.
+  induction cs as [|x r IH]; [reflexivity|]. cbn [forallb]. intros H. apply andb_true_iff in H. destruct H as [Hx Hr]. rewrite (IH Hr), andb_true_r.
+  destruct x as [k s|]; [|discriminate]. destruct k; try discriminate; reflexivity.
+Qed.
+Lemma out_built n cs : forallb (out_elem n) cs = true -> built_of cs = [].
+Proof.
+  induction cs as [|x r IH]; [reflexivity|]. cbn [forallb]. intros H. apply andb_true_iff in H. destruct H as [Hx Hr].
+  destruct x as [k s|]; [|discriminate]. destruct k; try discriminate; cbn [built_of flat_map app]; apply IH, Hr.
+Qed.
+Lemma out_ind n cs : forallb (out_elem n) cs = true -> forall ind, ind_after ind cs = ind.
+Proof.
+  induction cs as [|x r IH]; [reflexivity|]. cbn [forallb]. intros H ind. apply andb_true_iff in H. destruct H as [Hx Hr].
+  destruct x as [k s|]; [|discriminate]. destruct k; try discriminate; cbn [ind_after]; apply IH, Hr.
+Qed.
+Lemma out_keys n cs : forallb (out_elem n) cs = true -> token_texts_of_kind KEY (Node ENTRY cs) = [].
+Proof.
+  unfold token_texts_of_kind. cbn [children]. induction cs as [|x r IH]; [reflexivity|]. cbn [forallb]. intros H. apply andb_true_iff in H. destruct H as [Hx Hr].
+  destruct x as [k s|]; [|discriminate]. destruct k; try discriminate; cbn [flat_map kind_eqb kind_code N.eqb Pos.eqb app]; apply IH, Hr.
+Qed.
+
+Lemma built_of_app a b : built_of (a ++ b) = built_of a ++ built_of b.
+Proof. apply flat_map_app. Qed.
+Lemma built_of_idem cs : built_of (built_of cs) = built_of cs.
+Proof.
+  induction cs as [|x r IH]; [reflexivity|]. destruct x as [k s|]; [|exact IH].
+  destruct k; cbn [built_of flat_map app]; try exact IH; fold (built_of r); fold (built_of (built_of r)); rewrite IH; reflexivity.
+Qed.
+Lemma built_is_tok cs : forallb is_tok_elem (built_of cs) = true.
+Proof.
+  induction cs as [|x r IH]; [reflexivity|]. destruct x as [k s|]; [|exact IH].
+  destruct k; cbn [built_of flat_map app forallb is_tok_elem tkind]; exact IH.
+Qed.
+Lemma built_content cs : filter cfilt (built_of cs) = [].
+Proof.
+  induction cs as [|x r IH]; [reflexivity|]. destruct x as [k s|]; [|exact IH].
+  destruct k; cbn [built_of flat_map app filter cfilt ekind ckind]; exact IH.
+Qed.
+Lemma ind_after_app a : forall ind b, ind_after ind (a ++ b) = ind_after (ind_after ind a) b.
+Proof. induction a as [|x r IH]; intros ind b; [reflexivity|]. destruct x as [k s|]; [destruct k|]; cbn [app ind_after]; apply IH. Qed.
+Lemma ind_after_built cs : forall ind, ind_after ind (built_of cs) = ind_after ind cs.
+Proof.
+  induction cs as [|x r IH]; intros ind; [reflexivity|]. destruct x as [k s|]; [|apply IH].
+  destruct k; cbn [built_of flat_map app ind_after]; apply IH.
+Qed.
+Lemma keys_built cs : token_texts_of_kind KEY (Node ENTRY (built_of cs)) = token_texts_of_kind KEY (Node ENTRY cs).
+Proof.
+  unfold token_texts_of_kind. cbn [children]. induction cs as [|x r IH]; [reflexivity|]. destruct x as [k s|]; [|exact IH].
+  destruct k; cbn [built_of flat_map app kind_eqb kind_code N.eqb Pos.eqb]; try exact IH; f_equal; exact IH.
+Qed.
+Lemma keys_app a b : token_texts_of_kind KEY (Node ENTRY (a ++ b)) = token_texts_of_kind KEY (Node ENTRY a) ++ token_texts_of_kind KEY (Node ENTRY b).
+Proof. unfold token_texts_of_kind. cbn [children]. apply flat_map_app. Qed.
+
+Lemma elems_inj A B : elems A = elems B -> A = B.
+Proof.
+  revert B. induction A as [|[k s] r IH]; intros B H; destruct B as [|[k' s'] r']; try discriminate; [reflexivity|].
+  cbn [elems map tok_elem fst snd] in H. injection H as -> -> H. f_equal. apply IH, H.
+Qed.
+
+(* ---- a second application changes nothing ---- *)
+Theorem entry_out_idem ind iel mll cs : forallb is_tok_elem cs = true ->
+  forallb is_tok_elem (children (entry_out ind iel mll cs)) = true /\
+  entry_n ind (children (entry_out ind iel mll cs)) = entry_n ind cs /\
+  entry_out ind iel mll (children (entry_out ind iel mll cs)) = entry_out ind iel mll cs.
+Proof.
+  intros H. unfold entry_out. cbn [children].
+  set (T := entry_T cs). set (kl := entry_kl cs). set (n := entry_n ind cs).
+  assert (HcT : forallb is_ctok T = true) by (apply forallb_stripT, ctok_content, H).
+  pose proof (rebuild_out T kl n iel mll HcT) as Hout. set (O := rebuild_value fixed T kl n iel mll) in *.
+  assert (Htok : forallb is_tok_elem (built_of cs ++ O) = true) by (rewrite forallb_app, built_is_tok, (out_is_tok n O Hout); reflexivity).
+  assert (En : entry_n ind (built_of cs ++ O) = n).
+  { unfold entry_n, n. rewrite ind_after_app, ind_after_built, (out_ind n O Hout). reflexivity. }
+  split; [exact Htok|]. split; [exact En|].
+  rewrite En.
+  assert (Ekl : entry_kl (built_of cs ++ O) = kl).
+  { unfold entry_kl, kl, entry_key. rewrite keys_app, keys_built, (out_keys n O Hout), app_nil_r. reflexivity. }
+  rewrite Ekl, built_of_app, built_of_idem, (out_built n O Hout), app_nil_r.
+  destruct (rebuild_fix T kl n iel mll HcT (stripT_stripped _)) as (T2 & E1 & _ & _ & E2). fold O in E1, E2.
+  assert (ET : entry_T (built_of cs ++ O) = T2).
+  { apply elems_inj. unfold entry_T. rewrite <- strip_trailing_elems.
+    rewrite filter_app, built_content. cbn [app]. rewrite (elems_toks_of _ (filter_tok_elems O (out_is_tok n O Hout))). exact E1. }
+  rewrite ET, E2. reflexivity.
+Qed.
+
+(* ---- the lines of the value and the comment lines inside it are kept, in order ---- *)
+Definition vk (k : kind) : bool := match k with VALUE | COMMENT => true | _ => false end.
+Definition ktx (k : kind) (cs : list tree) : list str := token_texts_of_kind k (Node ENTRY cs).
+
+Lemma ktx_app k a b : ktx k (a ++ b) = ktx k a ++ ktx k b.
+Proof. unfold ktx, token_texts_of_kind. cbn [children]. apply flat_map_app. Qed.
+Lemma ktx_cons k x r : ktx k (x :: r) = ktx k [x] ++ ktx k r.
+Proof. apply (ktx_app k [x] r). Qed.
+
+Lemma ktx_strippable k a : vk k = true -> forallb strippable a = true -> ktx k (elems a) = [].
+Proof.
+  intros Hk. induction a as [|[k' s] r IH]; [reflexivity|]. cbn [forallb]. intros H. apply andb_true_iff in H. destruct H as [H1 H2].
+  cbn [elems map]. fold (elems r). rewrite ktx_cons, (IH H2), app_nil_r. unfold strippable, is_nl_or_ws_tok in H1. cbn [fst] in H1.
+  unfold ktx, token_texts_of_kind. cbn [children flat_map tok_elem fst snd]. rewrite app_nil_r.
+  destruct k'; try discriminate; destruct k; try discriminate; reflexivity.
+Qed.
+
+Lemma elems_app a b : elems (a ++ b) = elems a ++ elems b.
+Proof. apply map_app. Qed.
+
+Lemma stripT_decomp T : exists s, forallb strippable s = true /\ T = stripT T ++ s.
+Proof.
+  destruct (drop_while_suffix is_nl_or_ws_tok (rev T)) as (a & Ha & E). exists (rev a). split.
+  - rewrite forallb_forall in *. intros x Hx. apply Ha. apply in_rev. exact Hx.
+  - unfold stripT. rewrite <- rev_app_distr, <- E. symmetry. apply rev_involutive.
+Qed.
+
+Lemma ktx_stripT k T : vk k = true -> ktx k (elems (stripT T)) = ktx k (elems T).
+Proof.
+  intros Hk. destruct (stripT_decomp T) as (s & Hs & E). rewrite E at 2. rewrite elems_app, ktx_app, (ktx_strippable k s Hk Hs), app_nil_r. reflexivity.
+Qed.
+Lemma ktx_drop k T : vk k = true -> ktx k (elems (drop_while is_nl_or_ws_tok T)) = ktx k (elems T).
+Proof.
+  intros Hk. destruct (drop_while_suffix is_nl_or_ws_tok T) as (a & Ha & E). rewrite E at 2. rewrite elems_app, ktx_app, (ktx_strippable k a Hk Ha). reflexivity.
+Qed.
+
+Lemma ktx_emit k n T : vk k = true -> forall lwn, ktx k (fst (emit_indented n lwn T)) = ktx k (elems T).
+Proof.
+  intros Hk. induction T as [|t r IH]; intros lwn; [reflexivity|]. cbn [emit_indented]. specialize (IH (is_nl_tok t)).
+  destruct (emit_indented n (is_nl_tok t) r) as [e l]. cbn [fst] in *. rewrite ktx_app. cbn [elems map].
+  rewrite (ktx_cons k (tok_elem t) e), (ktx_cons k (tok_elem t) (map tok_elem r)), IH.
+  replace (ktx k (if lwn then [Tok INDENT (spaces n)] else [])) with (@nil str); [reflexivity|].
+  destruct lwn; [|reflexivity]. destruct k; try discriminate; reflexivity.
+Qed.
+
+Lemma ktx_content k cs : vk k = true -> ktx k (filter cfilt cs) = ktx k cs.
+Proof.
+  intros Hk. induction cs as [|x r IH]; [reflexivity|]. cbn [filter]. rewrite (ktx_cons k x r), <- IH.
+  destruct (cfilt x) eqn:E; [rewrite (ktx_cons k x (filter cfilt r)); reflexivity|].
+  replace (ktx k [x]) with (@nil str); [reflexivity|]. destruct x as [k' s|]; [|reflexivity]. unfold cfilt in E. cbn [ekind] in E.
+  unfold ktx, token_texts_of_kind. cbn [children flat_map]. rewrite app_nil_r.
+  destruct k'; try discriminate; destruct k; try discriminate; reflexivity.
+Qed.
+
+Lemma ktx_built k cs : vk k = true -> ktx k (built_of cs) = [].
+Proof.
+  intros Hk. induction cs as [|x r IH]; [reflexivity|]. destruct x as [k' s|]; [|exact IH].
+  destruct k'; cbn [built_of flat_map app]; try exact IH; fold (built_of r);
+    (match goal with |- ktx k (?y :: _) = _ => rewrite (ktx_cons k y (built_of r)), IH, app_nil_r end); destruct k; try discriminate; reflexivity.
+Qed.
+
+Theorem entry_out_texts ind iel mll cs k : forallb is_tok_elem cs = true -> vk k = true ->
+  ktx k (children (entry_out ind iel mll cs)) = ktx k cs.
+Proof.
+  intros H Hk. unfold entry_out. cbn [children]. rewrite ktx_app, (ktx_built k cs Hk). cbn [app].
+  rewrite <- (ktx_content k cs Hk), <- (elems_toks_of (filter cfilt cs) (filter_tok_elems cs H)), <- (ktx_stripT k _ Hk). fold (entry_T cs).
+  unfold rebuild_value.
+  destruct ((match mll with Some m => (first_line_len (entry_T cs) (entry_kl cs) <=? m)%N | None => false end) && negb (has_newline (entry_T cs))).
+  - rewrite ktx_app. fold (elems (entry_T cs)). replace (ktx k [Tok NEWLINE [10%N]]) with (@nil str) by (destruct k; try discriminate; reflexivity).
+    apply app_nil_r.
+  - set (down := _ || _). pose proof (ktx_emit k (entry_n ind cs) (drop_while is_nl_or_ws_tok (entry_T cs)) Hk down) as He.
+    destruct (emit_indented (entry_n ind cs) down (drop_while is_nl_or_ws_tok (entry_T cs))) as [e l]. cbn [fst] in He.
+    rewrite !ktx_app, He, (ktx_drop k _ Hk).
+    replace (ktx k (if down then [Tok NEWLINE [10%N]] else [Tok WHITESPACE [32%N]])) with (@nil str) by (destruct down; destruct k; try discriminate; reflexivity).
+    replace (ktx k (if l then [] else [Tok NEWLINE [10%N]])) with (@nil str) by (destruct l; destruct k; try discriminate; reflexivity).
+    cbn [app]. apply app_nil_r.
+Qed.
+
+(* the key and the colon(s) stay in front; every INDENT has exactly the requested width *)
+Theorem entry_out_shape ind iel mll cs : forallb is_tok_elem cs = true ->
+  entry_key (entry_out ind iel mll cs) = entry_key (Node ENTRY cs) /\
+  exists O, children (entry_out ind iel mll cs) = built_of cs ++ O /\ forallb (out_elem (entry_n ind cs)) O = true.
+Proof.
+  intros H. unfold entry_out.
+  assert (HcT : forallb is_ctok (entry_T cs) = true) by (apply forallb_stripT, ctok_content, H).
+  pose proof (rebuild_out (entry_T cs) (entry_kl cs) (entry_n ind cs) iel mll HcT) as Hout.
+  split; [|eexists; split; [reflexivity|exact Hout]].
+  unfold entry_key. rewrite keys_app, keys_built, (out_keys _ _ Hout), app_nil_r. reflexivity.
+Qed.
